@@ -8,7 +8,7 @@ const DIMS: &[(&str, usize)] = &[
     ("streams", 2),
     ("req-body", 5),
     ("resp-body", 5),
-    ("windows", 3),
+    ("windows", 5),
     ("end", 3),
     ("head", 3),
     ("recv", 2),
@@ -142,6 +142,9 @@ pub fn scenario_of(row: &[usize]) -> Scenario {
             cfg.c_stream_window = Some(1);
             cfg.s_stream_window = Some(1);
         }
+        // asymmetric: only one side advertises a small window (a mix-up of "ours" and "theirs" shows only then)
+        3 => cfg.c_stream_window = Some(7),
+        4 => cfg.s_stream_window = Some(7),
         _ => {}
     }
     if row[8] == 1 {
